@@ -1174,14 +1174,15 @@ fn main() {
     let n_runs = if thorough { 6000 } else { 600 };
     let mut run_steps_hist = vec![0usize; RUN_STEPS + 1];
     for _ in 0..n_runs {
-        let (_prog, c) = gen_run_case(&mut rng, &stone);
+        let (prog, c) = gen_run_case(&mut rng, &stone);
         let (states, after) = impl_run(&c);
         run_steps_hist[states.len()] += 1;
         let cells = |m: &Vec<((usize, usize), MaybeRelocatable)>| {
             coq_list(&m.iter().map(|((s, o), v)| format!("(({}, {}), {})", s, o, mr(v))).collect::<Vec<_>>())
         };
         run_lines.push(format!(
-            "({}, (({}, {}), {}, {}), {}%nat, {}, {})",
+            "({}, {}, (({}, {}), {}, {}), {}%nat, {}, {})",
+            coq_list(&prog.iter().map(instr).collect::<Vec<_>>()),
             cells(&c.mem),
             c.pc.0,
             c.pc.1,
